@@ -159,7 +159,7 @@ func (e histEngine) Probes() []string {
 	if e.id == "C06" {
 		return []string{"ipv6_origin_round_trip", "wildcard_port_round_trip", "star_mixed_round_trip", "trailing_dot_round_trip", "twins_compared", "config_idempotent_checked"}
 	}
-	return []string{"rejected_differs_from_current", "before_after_compared"}
+	return []string{"rejected_differs_from_current", "before_after_compared", "shadow_twin_compared"}
 }
 
 func (e histEngine) Gen(r *R, tier string) any {
@@ -218,6 +218,11 @@ func (e histEngine) Decode(b []byte) (any, error) {
 func (e histEngine) Exec(plan any, c *Ctx) *Violation {
 	p := plan.(*HistPlan)
 	var m *cors.Middleware
+	// C08 only: a shadow twin lives through the same history WITHOUT the rejected
+	// calls; a rejected call must leave no trace, not even a latent one that
+	// only a later successful call reveals.
+	var shadow *cors.Middleware
+	rejectedSince := false
 	cur := -1 // plan-level belief, used only to select probes
 	twinDone := map[int]bool{}
 	longLived = map[*cors.Middleware]*mwServer{}
@@ -274,6 +279,45 @@ func (e histEngine) Exec(plan any, c *Ctx) *Violation {
 			return nil
 		}
 		c.logf("%s cfg=%d debug=%v", label, st.Cfg, st.Debug)
+		if e.id == "C08" {
+			pan := catch(func() {
+				switch st.Kind {
+				case "new":
+					shadow, _ = cors.NewMiddleware(p.Cfgs[st.Cfg].Config())
+				case "zero":
+					shadow = new(cors.Middleware)
+				case "zero_reconf":
+					shadow = new(cors.Middleware)
+					cc := p.Cfgs[st.Cfg].Config()
+					shadow.Reconfigure(&cc)
+				case "reconf":
+					cc := p.Cfgs[st.Cfg].Config()
+					shadow.Reconfigure(&cc)
+				case "reconf_nil":
+					shadow.Reconfigure(nil)
+				case "setdebug":
+					shadow.SetDebug(st.Debug)
+				case "reject":
+					rejectedSince = true
+				}
+			})
+			if pan != "" || shadow == nil {
+				return nil
+			}
+			last := si == len(p.Steps)-1
+			if rejectedSince && st.Kind != "reject" && (st.Kind != "setdebug" || last) || rejectedSince && last {
+				suite := suiteFor(p.Cfgs, cur, nil)
+				a, p1 := observeMW(shadow, suite)
+				b, p2 := observeMW(m, suite)
+				if p1+p2 != "" {
+					return &Violation{Class: "panic", Key: "observe", Detail: label + ": " + p1 + p2}
+				}
+				c.hit("shadow_twin_compared")
+				if d := diffObs(a, b, suite, true); d != "" {
+					return &Violation{Class: "latent-trace-of-rejected-reconfigure", Key: "shadow", Detail: fmt.Sprintf("%s: a middleware that went through the same history WITHOUT the rejected Reconfigure calls differs: %s (first = without, second = with)", label, d)}
+				}
+			}
+		}
 	}
 	return nil
 }
@@ -341,6 +385,19 @@ func (e histEngine) f2(p *HistPlan, m *cors.Middleware, cur int, kind, label str
 		c.hit("config_idempotent_checked")
 		if !reflect.DeepEqual(c1, c2) {
 			return &Violation{Class: "config-not-fixpoint", Key: cfgStr(c1), Detail: fmt.Sprintf("%s: Config() after a round trip %s; after one more %s", label, cfgStr(c1), cfgStr(c2))}
+		}
+		if err := m.Reconfigure(m.Config()); err != nil {
+			return &Violation{Class: "restore-rejected", Key: cfgStr(c2), Detail: fmt.Sprintf("%s: third m.Reconfigure(m.Config()) failed with %q", label, err)}
+		}
+		if c3 := m.Config(); !reflect.DeepEqual(c2, c3) {
+			return &Violation{Class: "config-not-fixpoint", Key: cfgStr(c2), Detail: fmt.Sprintf("%s: Config() after two round trips %s; after three %s", label, cfgStr(c2), cfgStr(c3))}
+		}
+		after3, pan := observeMW(m, suite)
+		if pan != "" {
+			return &Violation{Class: "panic", Key: "observe", Detail: label + ": " + pan}
+		}
+		if d := diffObs(before, after3, suite, false); d != "" {
+			return &Violation{Class: "restore-changed-behaviour", Key: key, Detail: label + " (after three round trips): " + d}
 		}
 	case "restart":
 		c.hit("F2_restart")
